@@ -207,7 +207,16 @@ def run(chk, replay=None):
                     else:
                         m[0][k] += 1
                 sims.append(m)
-        res = call_test(pe, kind, fc, cat, nsim, rn, seed=chk.seed + t)
+        if kind == 'L':
+            # the L-test draws its own numbers: capture the catalogs its sampler returns (harness-side wrapper)
+            from vh.drivers.c06 import Capture
+            with Capture(numpy, {'poisson': pe}) as cap:
+                res = call_test(pe, kind, fc, cat, nsim, rn, seed=chk.seed + t)
+            for (_n, tgt, _w, _d, out) in cap.calls:
+                a = numpy.asarray(out).reshape(nc, nb)
+                sims.append([[int(a[c, b]) for b in range(nb)] for c in range(nc)])
+        else:
+            res = call_test(pe, kind, fc, cat, nsim, rn, seed=chk.seed + t)
         chk.count()
         traces.append({'kind': kind, 'rid': rid, 'w': w, 'sims': sims})
         results.append(res)
